@@ -2,5 +2,5 @@ SPECIFICATION LSpec
 CONSTANTS Addrs = {} Keys = {} Signers = {} OwnSigner = "" MaxVer = 0 Datas = {} UData = {}
           Forged = FALSE Sizes = FALSE Multi = FALSE Base = 3600 Scale = 1000 MaxRot = 0 MaxClock = 0 InitCloser = 0 MaxCloser = 0
           MaxIssued = 0 PeerStore = FALSE Locals = FALSE EqReplaces = TRUE OtherTokens = {} MaxStored = 0
-          KeepSecrets = 2 CleanAll = TRUE
+          KeepSecrets = 2 CleanAll = TRUE Validity = 0 RotatePeriod = 0 ExpiredYields = FALSE
 INVARIANT AllLookupsOK
